@@ -880,6 +880,17 @@ func c04OutputTruncated(c *Ctx) {
 		if strings.HasSuffix(fn, "_test.go") || strings.HasSuffix(fn, "/pigeon.go") {
 			continue
 		}
+		// os.Create handed to a wrapper as a function value opens (and truncates) as well
+		ast.Inspect(fd.Body, func(n ast.Node) bool {
+			if ce, ok := n.(*ast.CallExpr); ok {
+				for _, a := range ce.Args {
+					if nospace(a) == "os.Create" {
+						nCreate++
+					}
+				}
+			}
+			return true
+		})
 		for _, ce := range callsIn(fd.Body) {
 			switch callName(ce) {
 			case "os.Create":
